@@ -30,11 +30,11 @@ from srcparsers.osrc import osrc
 FUNCTIONS = ["peltool.parsePEL and everything below it", "module-level state of src.py, parse_user_data.py, comp_id.py, "
              "registry.py, osrc.py, io_drawer/*.py, udparsers/*", "peltool.extractAllPELsData"]
 
-PAIRS = ["lp", "src-words", "callouts", "compid-HO", "compid-OH", "registry", "ud-plugin", "ud-fail:2", "ud-fail:4", "ud-fail:6",
+PAIRS = ["summary-first", "lp", "src-words", "callouts", "compid-HO", "compid-OH", "registry", "ud-plugin", "ud-fail:2", "ud-fail:4", "ud-fail:6",
          "ud-fail:7", "src-fail:2", "src-fail:4", "callout-fail:4", "callout-fail:6", "callout-unknown", "damaged", "ilog-mex-nimitz",
          "ilog-nimitz-mex", "trace-mex-nimitz", "hlog", "oe500", "osrc-BC-BD", "osrc-BD-BC", "compid-lazy", "src-words-short"]
 HARNESSES = [
-    {"fn": "h_tworun", "cases": PAIRS, "quick_cases": ["lp", "compid-HO", "registry", "ud-fail:6", "callout-fail:4", "callout-unknown",
+    {"fn": "h_tworun", "cases": PAIRS, "quick_cases": ["summary-first", "lp", "compid-HO", "registry", "ud-fail:6", "callout-fail:4", "callout-unknown",
                                                      "ilog-mex-nimitz", "trace-mex-nimitz", "damaged", "osrc-BC-BD", "compid-lazy",
                                                      "src-words-short"],
      "timeout": {"quick": 120, "thorough": 400}},
@@ -203,9 +203,10 @@ class _lazy:
         return False
 
 
-def dec(data):
-    cfg = Config()
-    cfg.every_pel = True
+def dec(data, cfg=None):
+    if cfg is None:
+        cfg = Config()
+        cfg.every_pel = True
     try:
         eid, tok = peltool.parsePEL(DataStream(data, byte_order="big", is_signed=False), cfg, False)
         return tok.obj if hasattr(tok, "obj") else ("empty", eid)
@@ -297,6 +298,11 @@ def h_tworun() -> bool:
         ch = sym_int("ch", 0x30, 0x31)
         x = pb.PEL(pb.SRC(ascii=mkbytes(b"1100203", [ch], b" " * 24)))
         y = pb.PEL(pb.SRC(ascii=mkbytes(b"BD8D203", [ch], b" " * 24)))
+    elif case == "summary-first":
+        # one Config object serves a whole invocation: y is only summarised (as --list / look-ups do), then x is decoded
+        s1 = sym_int("s1", 0, 255)
+        x = pb.PEL(pb.SRC(flags=1, callouts=_co()), pb.UD(b"\x01\x02", sub=s1, comp=0x0777), ph=dict(creator=ord("B")))
+        y = pb.PEL(pb.SRC(ascii=b"BD8D4444"), pb.UD(b"\x09", comp=0x0777), ph=dict(creator=ord("B"), eid=0x50000044))
     elif case in ("ud-plugin", "ud-fail"):
         s1, s2 = sym_int("s1", 0, 255), sym_int("s2", 0, 255)
         x = pb.PEL(pb.UD(b"\x01\x02", sub=s1, comp=0x0777), pb.ED(b"\x03", creator=ord("O"), comp=0x0777))
@@ -358,10 +364,18 @@ def h_tworun() -> bool:
         with env(None if real_plugins else imp) as e, _lazy(lazy):
             if between is not None:
                 imp.behaviour = between
-            d2 = dec(y)
-            imp.behaviour = 0
-            d3 = dec(x)
-            d4 = dec(x)
+            if case == "summary-first":
+                shared = Config()
+                shared.every_pel = True
+                d2 = peltool.parsePELSummary(DataStream(y, byte_order="big", is_signed=False), shared)
+                imp.behaviour = 0
+                d3 = dec(x, shared)
+                d4 = dec(x, shared)
+            else:
+                d2 = dec(y)
+                imp.behaviour = 0
+                d3 = dec(x)
+                d4 = dec(x)
     except Exception as ex:
         return verdict(False, obs={"exception": repr(ex)})
     finally:
